@@ -134,6 +134,7 @@ func (x *Exec) call(in ssa.Instruction, c *ssa.CallCommon, res ssa.Value) {
 	}
 	var args []Val
 	var argNames []string
+	var selfVal *Val
 	fc, key, callee := x.calleeContract(c)
 	if c.IsInvoke() {
 		rv := x.val(c.Value)
@@ -143,6 +144,7 @@ func (x *Exec) call(in ssa.Instruction, c *ssa.CallCommon, res ssa.Value) {
 	} else if callee == nil {
 		fv := x.materialize(x.val(c.Value))
 		x.safety("nil-func", fmt.Sprintf("(not (= %s 0))", fv.T), "call of nil func value "+key, c.Pos())
+		selfVal = &fv
 	}
 	for _, a := range c.Args {
 		args = append(args, x.materialize(x.val(a)))
@@ -165,6 +167,9 @@ func (x *Exec) call(in ssa.Instruction, c *ssa.CallCommon, res ssa.Value) {
 	binders := map[string]Val{}
 	for i, n := range argNames {
 		binders[n] = args[i]
+	}
+	if selfVal != nil {
+		binders["self"] = *selfVal
 	}
 	// special-cased library semantics
 	if callee != nil {
